@@ -205,11 +205,12 @@ func idRequestURI(id int) string {
 func idBody(id int) string { return fmt.Sprintf("body-%d-%s", id, strings.Repeat("z", id%50)) }
 
 // script: what the invocation for id writes
-func idKind(id int) int { return (id / 4) % 8 }
+func idKind(id int) int { return (id / 4) % 9 }
 
 // realServerMode is set by the stage that talks to a real server (one stage per process): two of the scripts
 // only make sense against a recorder.
 var realServerMode bool
+
 func idCode(id int) int { return 200 + (id*37)%400 }
 
 func expectedCode(id int) int {
@@ -239,6 +240,7 @@ type env struct {
 	inside   atomic.Int32
 	maxIn    atomic.Int32
 	realSrv  bool
+	routed   bool // two handlers wrapped with one and the same LogMiddleware; odd ids go to the second
 }
 
 func (e *env) problem(format string, a ...any) {
@@ -347,6 +349,12 @@ func (e *env) inner(w http.ResponseWriter, r *http.Request) {
 		body := "resp-" + idStr
 		_, _ = fmt.Fprintf(conn, "HTTP/1.1 200 OK\r\nX-Id: %s\r\nContent-Length: %d\r\nConnection: close\r\n\r\n%s", idStr, len(body), body)
 		_ = conn.Close()
+	case 8:
+		// an empty Write commits the implicit 200 and the headers set so far, like any other Write
+		w.Header().Set("X-Early", "1")
+		_, _ = w.Write(nil)
+		w.Header().Set("X-Late", "1")
+		_, _ = io.WriteString(w, "resp-"+idStr)
 	case 6:
 		// 101 is the one 1xx code that is final
 		if !e.realSrv {
@@ -374,6 +382,9 @@ type response struct {
 	code int
 	body string
 	hdr  string
+	// route is the X-Route response header (which of the two handlers wrapped with the same middleware answered),
+	// late the X-Late one (set by script 8 after its empty Write had committed the headers)
+	route, late string
 }
 
 func mkRequest(id int) *http.Request {
@@ -510,6 +521,13 @@ func verify(e *env, ids []int, resps []response) (what string, checks int) {
 		if c := expectedCode(rs.id); e.realSrv && (c == http.StatusNoContent || c == http.StatusNotModified) {
 			wantBody = "" // net/http does not send a body with these codes
 		}
+		wantRoute := ""
+		if e.routed && rs.id%2 == 1 && !(idKind(rs.id) == 5 && e.realSrv) {
+			wantRoute = "b"
+		}
+		if rs.route != wantRoute || rs.late != "" {
+			return fmt.Sprintf("the client of request %d received X-Route %q (want %q: two handlers are wrapped with one LogMiddleware, odd ids go to the second) and X-Late %q (want none: set after an empty Write had committed the headers)", rs.id, rs.route, wantRoute, rs.late), checks
+		}
 		if rs.code != expectedCode(rs.id) || rs.body != wantBody || rs.hdr != strconv.Itoa(rs.id) {
 			return fmt.Sprintf("the client of request %d received code %d body %q header %q, its invocation wrote %d %q", rs.id, rs.code, rs.body, rs.hdr, expectedCode(rs.id), expectedBody(rs.id)), checks
 		}
@@ -537,7 +555,20 @@ func newEnvMode(retain bool, real bool, mode int) (*env, http.Handler) {
 		return e, httputil.Wrap(http.HandlerFunc(e.inner), mw)
 	}
 	mw := httputil.NewLogMiddleware(slog.New(&recHandler{st: e.st, retain: retain, yield: y}), slog.LevelInfo)
-	return e, httputil.Wrap(http.HandlerFunc(e.inner), mw)
+	// one middleware instance wraps two handlers (two routes of a mux): each wrapped handler keeps its own next
+	e.routed = true
+	hA := httputil.Wrap(http.HandlerFunc(e.inner), mw)
+	hB := httputil.Wrap(http.HandlerFunc(func(w http.ResponseWriter, r *http.Request) {
+		w.Header().Set("X-Route", "b")
+		e.inner(w, r)
+	}), mw)
+	return e, http.HandlerFunc(func(w http.ResponseWriter, r *http.Request) {
+		if id, _ := strconv.Atoi(r.Header.Get("X-Id")); id%2 == 1 {
+			hB.ServeHTTP(w, r)
+			return
+		}
+		hA.ServeHTTP(w, r)
+	})
 }
 
 // batch serves the given ids concurrently; with k > 0 the first k requests are
@@ -572,7 +603,8 @@ func batch(e *env, h http.Handler, ids []int, k int, order []int) []response {
 				}()
 				h.ServeHTTP(rec, mkRequest(id))
 			}()
-			resps[i] = response{id, rec.Code, rec.Body.String(), rec.Header().Get("X-Id")}
+			res := rec.Result()
+			resps[i] = response{id, rec.Code, rec.Body.String(), rec.Header().Get("X-Id"), res.Header.Get("X-Route"), res.Header.Get("X-Late")}
 		}()
 	}
 	if b != nil {
@@ -734,7 +766,7 @@ func TestServer(t *testing.T) {
 					_ = res.Body.Close()
 					mu.Lock()
 					all = append(all, id)
-					resps = append(resps, response{id, res.StatusCode, string(b), res.Header.Get("X-Id")})
+					resps = append(resps, response{id, res.StatusCode, string(b), res.Header.Get("X-Id"), res.Header.Get("X-Route"), res.Header.Get("X-Late")})
 					mu.Unlock()
 				}
 			}()
